@@ -3,6 +3,7 @@
 //!   `run(ops) -> Vec<String>`                      (impl trace; one line per op line)
 use crate::util::{Rng, Stats};
 
+pub mod param;
 pub mod units;
 
 pub fn suite_salt(name: &str) -> u64 {
@@ -13,6 +14,7 @@ pub fn suite_salt(name: &str) -> u64 {
 pub fn gen(suite: &str, rng: &mut Rng, n: usize, thorough: bool, stats: &mut Stats) -> Vec<String> {
 	match suite {
 		"units" => units::gen(rng, n, thorough, stats),
+		"param" => param::gen(rng, n, thorough, stats),
 		_ => panic!("unknown suite {}", suite),
 	}
 }
@@ -20,6 +22,7 @@ pub fn gen(suite: &str, rng: &mut Rng, n: usize, thorough: bool, stats: &mut Sta
 pub fn run(suite: &str, ops: &[String]) -> Vec<String> {
 	match suite {
 		"units" => units::run(ops),
+		"param" => param::run(ops),
 		_ => panic!("unknown suite {}", suite),
 	}
 }
